@@ -1,6 +1,6 @@
 (* Uniform executable entry point of the model for the correspondence check:
    run_case tag args = the observable outputs the implementation must produce for the same case. *)
-From DDSV Require Import base.Machine model.View model.Layout model.DecoderSM model.EncoderSM model.Split model.DecodeScript model.Formats gen.GenFormats spec.SpecLayout model.HeaderTypes gen.GenHeader model.Header model.Numeric model.BCdec model.BC7.
+From DDSV Require Import base.Machine model.View model.Layout model.DecoderSM model.EncoderSM model.Split model.DecodeScript model.Formats gen.GenFormats spec.SpecLayout model.HeaderTypes gen.GenHeader model.Header model.Numeric model.BCdec model.BC7 model.Float model.Convert model.Uncomp.
 
 Local Open Scope Z_scope.
 
@@ -326,6 +326,26 @@ Definition run_c03 (a : list Z) : list Z :=
   | _ => [-99]
   end.
 
+(* ---- C04 uncompressed decode: [fmt; prec; w; h; bytes...] -> channel values; float model: [op; a; b] -> [r] *)
+Definition run_c04 (a : list Z) : list Z :=
+  match a with
+  | f :: prec :: w :: h :: data => Uncomp.decode_image f prec w h data
+  | _ => [-99]
+  end.
+Definition canon_bits (x : fl) : Z := f32_bits x.
+Definition run_c40 (a : list Z) : list Z :=
+  match a with
+  | [op; x; y] =>
+      let fx := f32_of_bits x in let fy := f32_of_bits y in
+      [ if op =? 0 then canon_bits (f32_add fx fy) else if op =? 1 then canon_bits (f32_sub fx fy)
+        else if op =? 2 then canon_bits (f32_mul fx fy) else if op =? 3 then canon_bits (f32_div fx fy)
+        else if op =? 4 then canon_bits (f32_of_Z x) else if op =? 5 then Convert.as_u8 fx else if op =? 6 then Convert.as_u16 fx
+        else if op =? 7 then Convert.as_u32 fx else if op =? 8 then canon_bits (fmax fx fy) else if op =? 9 then canon_bits (fmin fx fy)
+        else if op =? 10 then canon_bits (Convert.clamp01 fx)
+        else (if flt fx fy then 1 else 0) + 2 * (if fle fx fy then 1 else 0) ]
+  | _ => [-99]
+  end.
+
 Definition run_case (tag : Z) (args : list Z) : list Z :=
   match tag with
   | 20 => run_c20 args
@@ -339,6 +359,8 @@ Definition run_case (tag : Z) (args : list Z) : list Z :=
   | 19 => run_c19 args
   | 17 => run_c17 args
   | 3 => run_c03 args
+  | 4 => run_c04 args
+  | 40 => run_c40 args
   | _ => [-98]
   end.
 
